@@ -85,6 +85,7 @@ type Scenario struct {
 	KeepDir    bool     `json:"keep_dir,omitempty"`
 	GoMaxProcs int      `json:"gomaxprocs,omitempty"`
 	NoExport   bool     `json:"no_export,omitempty"`
+	RawDump    bool     `json:"raw_dump,omitempty"` // read the database directly through badger before the stack opens it and after it is closed
 }
 
 // Runner executes scenarios.
@@ -348,6 +349,52 @@ func (r *Runner) writePriors(ctx context.Context, dir string, b *Base, priors []
 		}
 	}
 	return nil
+}
+
+// RawDump reads the slashing-protection database through badger directly (the store must not be open): an observation
+// of the stored records that does not go through any of the repository's own code.
+func (r *Runner) RawDump(dir string, b *Base, label string) {
+	db, err := badger.Open(badger.DefaultOptions(dir).WithLogger(nil))
+	if err != nil {
+		r.Log.Emit(Ev{"ev": "RawDumpFail", "r": label, "err": err.Error()})
+		return
+	}
+	defer db.Close()
+	out := map[string]map[string]int{}
+	get := func(k string) map[string]int {
+		if out[k] == nil {
+			out[k] = map[string]int{"as": -1, "at": -1, "ps": -1}
+		}
+		return out[k]
+	}
+	undecodable := 0
+	_ = db.View(func(txn *badger.Txn) error {
+		it := txn.NewIterator(badger.DefaultIteratorOptions)
+		defer it.Close()
+		for it.Rewind(); it.Valid(); it.Next() {
+			key := it.Item().KeyCopy(nil)
+			val, err := it.Item().ValueCopy(nil)
+			if err != nil || len(key) != 49 {
+				continue
+			}
+			rec := r.decodeRec(key, val)
+			k := b.Names.key(key[:48])
+			switch {
+			case rec["fmt"] == "garbage" || rec["fmt"] == "none":
+				undecodable++
+			case rec["kind"] == "att":
+				get(k)["as"], get(k)["at"] = rec["s"].(int), rec["t"].(int)
+			case rec["kind"] == "prop":
+				get(k)["ps"] = rec["slot"].(int)
+			}
+		}
+		return nil
+	})
+	dbv := map[string]any{}
+	for k, v := range out {
+		dbv[k] = v
+	}
+	r.Log.Emit(Ev{"ev": "RawDump", "r": label, "db": dbv, "undecodable": undecodable})
 }
 
 // Export projects the slashing database to abstract values.
@@ -671,6 +718,9 @@ func (r *Runner) Run(ctx context.Context, sc *Scenario) error {
 		}
 		InstallHook(b, r.decodeRec)
 	}
+	if sc.RawDump {
+		r.RawDump(dir, b, "raw-before")
+	}
 	st, err := NewStack(ctx, b, dir, nil)
 	if err != nil {
 		return err
@@ -729,6 +779,9 @@ func (r *Runner) Run(ctx context.Context, sc *Scenario) error {
 	r.Log.Emit(Ev{"ev": "End", "sc": sc.ID, "faults_hit": hits, "passages": passages})
 	_ = st.Close(ctx)
 	st.cancel()
+	if sc.RawDump {
+		r.RawDump(dir, b, "raw-after")
+	}
 	return nil
 }
 
